@@ -114,9 +114,22 @@ def c05_pncexpr_wrap(v, spec):
         return False
     same = {a for a, b in v.get('shared', []) if a == b}
     # (the wrapper exposes the input's dimension objects as well)
-    names = {d.split(':')[0] for d in v.get('diffs', ['?'])
-             if not d.startswith('dimensions ')}
-    return names <= same and (bool(names) or all(
+    diffs = [d for d in v.get('diffs', ['?'])
+             if not d.startswith('dimensions ')]
+    names = {d.split(':')[0] for d in diffs}
+    # the operand of the expression: numpy.ma hands its mask buffer on to
+    # abs()/+/* results (the mechanism of C05-eval-stores-by-reference, same
+    # code path), so masking the assigned variable masks the operand too
+    expr = (v.get('meta') or {}).get('expr', '')
+    rhs = expr.split('=', 1)[1] if '=' in expr else ''
+    import re
+    operands = set(re.findall(r'[A-Za-z_][A-Za-z_0-9]*', rhs))
+    extra = names - same
+    extra_ok = all(
+        n in operands and all(': mask changed' in d for d in diffs
+                              if d.split(':')[0] == n)
+        for n in extra)
+    return extra_ok and (bool(names) or all(
         d.startswith('dimensions ') for d in v.get('diffs', ['?'])))
 
 
